@@ -250,7 +250,9 @@ class K:
                     return f'(match {text} with Ok sl_ => Ok (frombytes (rev (tobytes sl_))) | Err e_ => Err e_ end)', 'bits', 'res'
         if f == 'Bits' and len(call.args) == 1:
             (n,) = self.args(call, env, ['Z']); return f'(repeat false (Z.to_nat {n}))', 'bits', 'pure'
-        if f in ('self._create_from_bitstype', 'Bits._create_from_bitstype') and len(call.args) == 1:
+        if f == 'self.__class__' and not call.args and len(call.keywords) == 1 and call.keywords[0].arg == 'length':
+            n, _ = self.expr(call.keywords[0].value, env, 'Z'); return f'(repeat false (Z.to_nat {n}))', 'bits', 'pure'
+        if f in ('self._create_from_bitstype', 'Bits._create_from_bitstype', 'self.__class__._create_from_bitstype') and len(call.args) == 1:
             a, t = self._expr(call.args[0], env)
             if t == 'bits': return a, 'bits', 'pure'
         if f == 'len' and len(call.args) == 1 and ast.unparse(call.args[0]).startswith('range('):
@@ -298,6 +300,10 @@ class K:
             a = self.args(call, env, ent['args'])
             return ent['coq'].format(*a), ent['ret'], ent['kind']
         raise Untranslatable(f'call {ast.unparse(call)}')
+
+    def is_res_call(self, call, env):
+        try: return self.call(call, env)[2] == 'res'
+        except (Untranslatable, NeedsUnwrap): return False
 
     def ident_of(self, call, env):
         """the identity flag of the first bits argument (for _overwrite's `bs is self`)"""
@@ -355,6 +361,14 @@ class K:
             first = s.targets[0]
             more = [ast.Assign(targets=[t], value=ast.Name(id=first.id, ctx=ast.Load())) for t in s.targets[1:]]
             return self.block([ast.Assign(targets=[first], value=s.value)] + more + rest, env, k)
+        if isinstance(s, ast.Expr) and isinstance(s.value, ast.Call) and any(isinstance(a, ast.Call) and self.is_res_call(a, env) for a in s.value.args):
+            pre, newargs = [], []
+            for i, a in enumerate(s.value.args):
+                if isinstance(a, ast.Call) and self.is_res_call(a, env):
+                    nm = f'tmp{i}_'; pre.append(ast.Assign(targets=[ast.Name(id=nm, ctx=ast.Store())], value=a)); newargs.append(ast.Name(id=nm, ctx=ast.Load()))
+                else: newargs.append(a)
+            s2 = ast.Expr(value=ast.Call(func=s.value.func, args=newargs, keywords=s.value.keywords))
+            return self.block(pre + [s2] + rest, env, k)
         if isinstance(s, ast.Expr) and isinstance(s.value, ast.Call):
             text, t, kind = self.call(s.value, env)
             if isinstance(kind, tuple):
@@ -544,6 +558,9 @@ FUNCS = {
 # ------------------------------------------------------------------------------------------------
 ST = '(mkstream v_self v__pos)'
 KERNELS = [
+    dict(py='bits.py:Bits.__lshift__', name='k_lshift', mode='bits', ret='bits', props=['C16'], params=[('n', 'Z')], model='bs_lshift v_self v_n'),
+    dict(py='bits.py:Bits.__rshift__', name='k_rshift', mode='bits', ret='bits', props=['C16'], params=[('n', 'Z')], model='bs_rshift v_self v_n'),
+    dict(py='bits.py:Bits.__add__', name='k_add', mode='bits', ret='bits', props=['C01'], params=[('bs', 'bits')], model='Ok (bs_add v_self v_bs)'),
     dict(py='bitstream.py:ConstBitStream._setbitpos', name='k_st_setbitpos', mode='stream', ret='unit', props=['C06'], lsb0='false',
          params=[('pos', 'Z')], model=f'unst (set_pos {ST} v_pos)'),
     dict(py='bitstream.py:ConstBitStream._setbytepos', name='k_st_setbytepos', mode='stream', ret='unit', props=['C06'], lsb0='false',
